@@ -850,7 +850,14 @@ impl<'c, 'd> Gen<'c, 'd> {
     fn gen_cmp(&mut self, stars: usize) -> MExpr {
         let t = self.scalar_type();
         let lhs = self.gen_index(&t, stars, self.cfg.call_depth);
-        let op = self.gen_op(&t);
+        let mut op = self.gen_op(&t);
+        // `!=` is the operator that shows how a missing value is treated: more of it where the
+        // left-hand side can be missing in interesting ways (call results, indexed containers)
+        if (matches!(lhs.base, MBase::Call { .. }) || !lhs.path.is_empty()) && self.ch.chance(1, 4) {
+            if let MOp::Ord(o, _) = &mut op {
+                *o = OrdOp::Ne;
+            }
+        }
         MExpr::Cmp { lhs, op }
     }
 
@@ -910,6 +917,21 @@ impl<'c, 'd> Gen<'c, 'd> {
 
     fn comb(&mut self, depth: usize, arr: bool) -> MExpr {
         let op = *self.ch.pick(&LOp::ALL);
+        if arr && self.cfg.containers && self.ch.chance(1, 6) {
+            // the same container under [*] with different constant indexes / keys behind it
+            // (`rows[*][0] == a or rows[*][1] == b`): ragged rows give operands of different lengths
+            let t = self.scalar_type();
+            let inner = if self.ch.boolean() { MType::array(t.clone()) } else { MType::map(t.clone()) };
+            let f = self.field_of(&MType::array(inner.clone()));
+            let n = self.ch.range(2, 3);
+            let mut items = Vec::new();
+            for _ in 0..n {
+                let idx = if matches!(inner, MType::Array(_)) { self.gen_idx() } else { self.gen_key() };
+                let cmp_op = self.gen_op(&t);
+                items.push(MExpr::Cmp { lhs: MIndex { base: MBase::Field(f.clone()), path: vec![MIdx::Each, idx] }, op: cmp_op });
+            }
+            return MExpr::Comb { op, items };
+        }
         let n = self.ch.weighted(&[5, 3, 1]) + 2;
         let mut items: Vec<MExpr> = Vec::new();
         for _ in 0..n {
